@@ -95,11 +95,13 @@ Print Assumptions C07_pass_with_close_leaves_pool_closed.
    close() is resolved with its own result (callback once), calls made after it created nothing,
    and nothing is left in the task queue, the pipes or a worker.  (Worker exit on the sentinel,
    reaping and thread shutdown during join() are runtime behaviour: real-pool scenarios only.) *)
-Theorem C07_every_job_before_close_resolves : forall c n sched y,
-    1 <= c_n c -> srun (sinit c n) sched = Some y -> (forall a, sys_step y a = None) ->
+Theorem C07_every_job_before_close_resolves : forall c n bd sched y,
+    1 <= c_n c -> srun (sinit_bad c n bd) sched = Some y -> (forall a, sys_step y a = None) ->
     ((forall j, 0 <= j < Z.of_nat (length (jobs (par y))) ->
         exists x, get_job (par y) j = Some x /\ ready x = true
-                  /\ value x = Some (PValue (tag_of j)) /\ cb_succ x = 1 /\ cb_err x = 0)
+                  /\ value x = Some (outcome_of (bad y) j)
+                  /\ cb_succ x = (if task_ok (bad y) j then 1 else 0)
+                  /\ cb_err x = (if task_ok (bad y) j then 0 else 1))
      /\ todo y = 0%nat /\ taskq y = [] /\ inq y = [] /\ outq y = [] /\ somes (wk y) = [])
     /\ pstate (par y) = 1 /\ (length (jobs (par y)) <= n)%nat /\ (length sched <= 6 * n + 1)%nat.
 Proof. exact every_maximal_schedule_completes. Qed.
